@@ -94,7 +94,16 @@ def run(sid, checks, record=False):
                 p = subprocess.run([os.path.join(VERIF, "vcheck"), c, "--tier", tier, "--no-selftest"], capture_output=True, text=True, env=env, cwd=VERIF)
                 sig = [ln for ln in p.stdout.splitlines() if ln.startswith(("violation:", "HARNESS-ERROR"))]
                 verdict = {0: "MISSED", 1: "CAUGHT", 2: "HARNESS-ERROR"}.get(p.returncode, str(p.returncode))
-                print(f"{sid:28s} {c} {tier} {verdict}  " + (sig[0][:200] if sig else ""), flush=True)
+                tot = ""
+                try:
+                    ev = json.load(open(os.path.join(d, "_evidence", c + ".json")))
+                    seen = ev["coverage"].get("signatures_seen", {})
+                    known = set(ev["coverage"].get("known_findings_matched", []))
+                    tot = "runs=%d hits=%d/%s  " % (ev["coverage"]["evaluations"], sum(v for k, v in seen.items() if k not in known),
+                                                    ",".join("%s:%d" % (k.split("/", 1)[1][:40], v) for k, v in seen.items() if k not in known)[:160])
+                except Exception:
+                    pass
+                print(f"{sid:28s} {c} {tier} {verdict}  {tot}" + (sig[0][:120] if sig else ""), flush=True)
                 results.append({"check": c, "tier": tier, "verdict": verdict, "first_line": (sig[0][:300] if sig else "")})
     finally:
         shutil.rmtree(d, ignore_errors=True)
